@@ -801,6 +801,33 @@ func c01TryDelivery(c *Check) {
 		}
 	}
 	c.Hold("R4", "tryDelivery:bookkeeping", lookup.Pos(), bk == "", bk)
+	// (6) what happens to the message as a whole follows the retry list: with recipients left to retry it is never
+	// removed from the spool and a retry is scheduled on every path; with none left it is removed and nothing is scheduled
+	rmPts, addPts := r.Calls(isRmDisk), r.Calls(isWheelAd)
+	pendWorld := func(pending bool) func(b *cfgBlock, i int) bool {
+		return r.F.World(func(atom ast.Expr) (bool, bool) {
+			if sx, ok := lenZeroEdge(info, atom); ok && mentions(info, atom, retryObj) {
+				return (sx == 0) != pending, true
+			}
+			return false, false
+		})
+	}
+	after := r.F.LoopDone(loop)
+	fate := ""
+	if len(rmPts) == 0 || len(addPts) == 0 {
+		fate = "undecided: expected the removal from the spool and the scheduling of the retry in tryDelivery"
+	} else {
+		if pth, f := r.F.Reach(Query{From: after, Inclusive: true, Target: isPt(rmPts), AvoidEdge: pendWorld(true)}); f {
+			fate = "the message is removed from the spool although recipients are still waiting for a retry (they are lost): " + r.F.Describe(pth)
+		} else if pth, f := r.F.Reach(Query{From: after, Inclusive: true, Target: r.F.IsExitPt, Avoid: isPt(addPts), AvoidEdge: pendWorld(true)}); f {
+			fate = "with recipients left to retry the attempt can end without scheduling the next one (the message stays in the spool until the next restart): " + r.F.Describe(pth)
+		} else if pth, f := r.F.Reach(Query{From: after, Inclusive: true, Target: isPt(addPts), AvoidEdge: pendWorld(false)}); f {
+			fate = "a retry is scheduled although no recipient is left (the message is re-queued for ever): " + r.F.Describe(pth)
+		} else if pth, f := r.F.Reach(Query{From: after, Inclusive: true, Target: r.F.IsExitPt, Avoid: isPt(rmPts), AvoidEdge: pendWorld(false)}); f {
+			fate = "with every recipient delivered or reported the message is not removed from the spool (it is loaded and attempted again after a restart): " + r.F.Describe(pth)
+		}
+	}
+	c.Hold("R4", "tryDelivery:message-fate-follows-retry-list", lookup.Pos(), fate == "", fate)
 
 	// ---- R5
 	c.Rule("R5", "tryDelivery: whether a failure report is due is decided, and the report handed over, before the message is removed, its metadata rewritten or the retry scheduled", 2)
